@@ -5,7 +5,7 @@ from .common import *
 LEVEL_TEXT = ("Coq theorems (C12/Props.v): delim_chunk_invariant - for ANY split of a text into chunks (empty ones included) DelimSource's line re-assembly yields exactly splitlines(text), with CPython's full line-boundary set and "
               "a CR LF pair cut anywhere; utf8_chunk_invariant - regrouping UTF-8 bytes into characters with a carry buffer is independent of the chunking; disk_roundtrip - lines free of CR/LF written by DiskSink are read back "
               "identically for any batching; split_join / libsvm_roundtrip - the LibSVM/Manik line grammar parses what the printer wrote; csv_roundtrip - the csv automaton (comma, double quote, doubled quotes) parses RFC-4180 minimal "
-              "quoting back to the cells; arff_dense_line_roundtrip / arff_sparse_line_roundtrip - dense lines (csv automaton with the reader's dialect) and sparse lines (the reader's own steps) written the Weka way are read back. Tied to the code by correspondence of the extracted models with DelimSource, _byte_it_, DiskSink/DiskSource, LibsvmReader and csv-backed CsvReader on generated inputs, "
+              "quoting back to the cells; arff_dense_line_roundtrip / arff_sparse_line_roundtrip - dense lines (csv automaton with the reader's dialect) and sparse lines (the reader's own steps) written the Weka way are read back; arff_nominal_levels_roundtrip - so is the level list of a nominal attribute. Tied to the code by correspondence of the extracted models with DelimSource, _byte_it_, DiskSink/DiskSource, LibsvmReader and csv-backed CsvReader on generated inputs, "
               "plus a table oracle (printed table vs parsed rows) for LibSVM, Manik, CSV and ARFF dense/sparse in the Weka/OpenML dialect and in variant spellings (same table or an error).")
 TRUSTED = ["Coq 8.16.1 kernel (coqc)", "extraction + ocaml/driver.ml", "harness/c12.py (table generators, printers for the Weka/OpenML and RFC-4180 dialects, variant spellings, oracle)",
            "modelled not verified: zlib/gzip streaming, the codec's code-point arithmetic (only the grouping of bytes is modelled), Python's csv module (re-implemented as an automaton for one dialect and compared), "
